@@ -16,7 +16,8 @@ ID = 'C11'
 LEVEL = 'fault_enumeration'
 ASSUMPTIONS = [
     '"fresh" outputs come from one new interpreter per (document, renderer, options) triple',
-    'renderers are used one at a time as context managers (the documented way); nested contexts are outside the statement',
+    'renderers are used one at a time as context managers (the documented way); for a context that is opened and closed inside another one '
+    'only the last sentence of the statement is checked (token sets are the defaults after its exit) - outputs of nested renderers are not compared',
     'custom faulting tokens are registered with the public add_token functions and removed again by the caller when no renderer context does it',
 ]
 
@@ -37,15 +38,22 @@ DOCS = {
     'entity-inline': '[a](/u&copy "t&copy") &copy\n',
     'entity-info': '```&copy\nx\n```\n',
     'quote-setext': '> quote\n\nTitle\n===\n\n> Title\n> ===\n',
+    'tight-list': '- a\n- b `c`\n\n> q\n\npara\n',
+    'latex-packages': '~~s~~ ![i](/s)\n\n| a |\n|---|\n| b |\n',
     'toc-ref': '# t\n\n## [l] x\n\n## y [r]\n',
     'ext': '$x$ [[a|b]] {{m}}\ntext\n{{/m}}\n\n- item\n  > q `c`\n',
 }
 RENDER_CONFIGS = [
     ('Html', {}), ('Html', {'process_html_tokens': False}), ('Markdown', {}), ('Markdown', {'max_line_length': 20}), ('LaTeX', {}), ('Ast', {}),
-    ('Toc', {}), ('GithubWiki', {}), ('MathJax', {}), ('Pygments', {}), ('Jira', {}), ('XWiki20', {}),
+    ('Toc', {}), ('GithubWiki', {}), ('MathJax', {}), ('Pygments', {}), ('Pygments', {'style': 'monokai'}), ('Jira', {}), ('XWiki20', {}),
 ]
-QUICK_CONFIGS = [('Html', {}), ('Markdown', {}), ('LaTeX', {}), ('XWiki20', {}), ('Toc', {})]
-QUICK_DOCS = ['code', 'setext', 'custom-tag', 'html-interrupt', 'quote-setext', 'empty-atx', 'entity-def', 'entity-inline', 'toc-ref']
+QUICK_CONFIGS = [('Html', {}), ('Markdown', {}), ('LaTeX', {}), ('XWiki20', {})]
+QUICK_EXTRA_CONFIGS = [('Toc', {}), ('Pygments', {}), ('Pygments', {'style': 'monokai'})]
+QUICK_DOCS = ['code', 'setext', 'custom-tag', 'html-interrupt', 'quote-setext', 'empty-atx', 'entity-def', 'entity-inline']
+QUICK_EXTRA_DOCS = ['toc-ref', 'fence', 'tight-list']
+
+
+SUBCLASS_DOCS = ['html', 'fence', 'atx', 'custom-tag', 'html-interrupt']
 
 
 class Boom(Exception):
@@ -144,6 +152,8 @@ try:
         out['value'] = repr(c11.scheme_session())
     elif job['kind'] == 'toc':
         out['value'] = c11.toc_value(c11.DOCS[job['doc']], None)
+    elif job['kind'] == 'subclass':
+        out['value'] = c11.subclass_session(c11.DOCS[job['doc']])
 except Exception as e:
     out['value'] = 'EXC ' + type(e).__name__
 print(json.dumps(out))
@@ -163,6 +173,81 @@ def render_value(doc_text, rname, opts):
                 toc = 'EXC ' + type(e).__name__
             val += '\n--toc--\n' + toc
     return val
+
+
+def subclass_session(doc_text):
+    """A renderer whose extra tokens are plain subclasses of the built-in block tokens that keep class-level scratch
+    (they are tried before their bases): whatever start() leaves for read() must be found on the subclass."""
+    from mistletoe import HtmlRenderer
+
+    class SubHeading(block_token.Heading):
+        pass
+
+    class SubFence(block_token.CodeFence):
+        pass
+
+    class SubHtml(block_token.HtmlBlock):
+        pass
+
+    class R(HtmlRenderer):
+        def __init__(self):
+            super().__init__(SubHeading, SubFence, SubHtml)
+
+        def render_sub_heading(self, token):
+            return self.render_heading(token)
+
+        def render_sub_fence(self, token):
+            return self.render_block_code(token)
+
+        def render_sub_html(self, token):
+            return self.render_html_block(token)
+    with R() as r:
+        return r.render(Document(doc_text))
+
+
+def reuse_after_render_error(kind, doc_text):
+    """One renderer instance: a rendering that raises (a documented refusal, or a custom token's render function), then
+    another document through the same instance."""
+    if kind == 'latex-verb':
+        from mistletoe.latex_renderer import LaTeXRenderer
+        with LaTeXRenderer() as r:
+            try:
+                import string
+                r.render(Document(DOCS['latex-packages'] + '\n- x `` ' + string.punctuation + string.digits + ' `` y\n'))
+                fired = False
+            except RuntimeError:
+                fired = True
+            return fired, r.render(Document(doc_text))
+    if kind == 'pygments-unknown-language':
+        from mistletoe.contrib.pygments_renderer import PygmentsRenderer
+        with PygmentsRenderer(fail_on_unsupported_language=True) as r:
+            try:
+                r.render(Document('- a\n  ```nosuchlang\n  x\n  ```\n- b\n'))
+                fired = False
+            except Exception:  # noqa
+                fired = True
+            return fired, r.render(Document(doc_text))
+    from mistletoe import HtmlRenderer
+
+    class Bad(span_token.SpanToken):
+        pattern = __import__('re').compile(r'BAD(x)?')
+
+    class R(HtmlRenderer):
+        def __init__(self):
+            super().__init__(Bad)
+
+        def render_bad(self, token):
+            raise Boom()
+    with R() as r:
+        try:
+            r.render(Document('> - a BAD\n> - b\n'))
+            fired = False
+        except Boom:
+            fired = True
+        return fired, r.render(Document(doc_text))
+
+
+REUSE_KINDS = {'latex-verb': ('LaTeX', {}), 'pygments-unknown-language': ('Pygments', {'fail_on_unsupported_language': True}), 'html-custom-render': ('Html', {})}
 
 
 def toc_value(doc_text, between):
@@ -191,6 +276,9 @@ def all_jobs(tier):
         jobs.append({'kind': 'bare', 'doc': d})
     jobs.append({'kind': 'scheme'})
     jobs.append({'kind': 'toc', 'doc': 'toc-ref'})
+    for d in SUBCLASS_DOCS:
+        jobs.append({'kind': 'subclass', 'doc': d})
+    jobs.append({'kind': 'render', 'doc': 'tight-list', 'renderer': 'Pygments', 'opts': {'fail_on_unsupported_language': True}})
     return jobs
 
 
@@ -340,6 +428,35 @@ def run_step(step):
             except Exception as e:  # noqa
                 obs.append(('fault-fired', type(e).__name__))
             obs.append(('reset', defaults_ok()))
+    elif kind == 'subclass':
+        try:
+            val = subclass_session(DOCS[step['doc']])
+        except Exception as e:  # noqa
+            val = 'EXC ' + type(e).__name__
+        obs.append(({'kind': 'subclass', 'doc': step['doc']}, val))
+        obs.append(('reset', defaults_ok()))
+    elif kind == 'reuse-after-render-error':
+        rname, ropts = REUSE_KINDS[step['how']]
+        try:
+            fired, val = reuse_after_render_error(step['how'], DOCS[step['doc']])
+            obs.append(('fault-fired', fired))
+        except Exception as e:  # noqa
+            val = 'EXC ' + type(e).__name__
+        # the second document through the same instance must come out as through a fresh one
+        obs.append(({'kind': 'render', 'doc': step['doc'], 'renderer': rname, 'opts': ropts}, val))
+        obs.append(('reset', defaults_ok()))
+    elif kind == 'nested-exit':
+        # a renderer context opened and closed while another one is still open: the statement's last sentence holds for it too
+        # (on exit the token sets are the defaults, whatever is still open outside)
+        outer, inner = mt.renderer_class(step['outer'][0]), mt.renderer_class(step['inner'][0])
+        try:
+            with outer(**step['outer'][1]):
+                with inner(**step['inner'][1]) as r:
+                    r.render(Document(DOCS['code']))
+                obs.append(('reset', defaults_ok()))
+        except Exception as e:  # noqa  (an outer renderer may not survive the reset: not judged here)
+            obs.append(('nested-outer-failed', type(e).__name__))
+        obs.append(('reset', defaults_ok()))
     elif kind == 'toc-after-abort':
         # inside one TocRenderer session: render, then a parse that is aborted by a raising custom token, then read .toc
         F, module = fault_token(step['fault'])
@@ -463,7 +580,7 @@ def run_history(ctx, history, source, confirm=True):
                                   block=[t.__name__ for t in block_token._token_types], span=[t.__name__ for t in span_token._token_types])
                     mt.reset()
             elif what == 'fault-fired':
-                ctx.count('faults', '%s fired=%s' % (step.get('fault', step['kind']), val))
+                ctx.count('faults', '%s fired=%s' % (step.get('fault') or (step['kind'] + ':' + step.get('how', '')), val))
                 if val is not False:
                     ctx.seen('fault-placements', [step.get('fault'), step.get('pos'), step.get('place'), step.get('renderer')])
             else:
@@ -499,6 +616,12 @@ def step_name(s):
         return 'render(%s,%s)' % (s['renderer'], s['doc'])
     if s['kind'] == 'bare':
         return 'parse(%s)' % s['doc']
+    if s['kind'] == 'subclass':
+        return 'subclass-session(%s)' % s['doc']
+    if s['kind'] == 'reuse-after-render-error':
+        return 'reuse-after-render-error(%s,%s)' % (s['how'], s['doc'])
+    if s['kind'] == 'nested-exit':
+        return 'nested-exit(%s in %s)' % (s['inner'][0], s['outer'][0])
     if s['kind'] == 'toc-after-abort':
         return 'toc-after-abort(%s@%s,%s)' % (s['fault'], s['pos'], s['place'])
     if s['kind'] == 'fault':
@@ -514,6 +637,27 @@ def probe_name(job):
 
 
 # ---- alphabets -------------------------------------------------------------------------------------
+
+def quick_extra_alphabet():
+    """Steps that take part in all pairs (with the core alphabet and each other) and in random histories, but not in the
+    exhaustive triples of the quick tier."""
+    steps = []
+    for r, o in QUICK_EXTRA_CONFIGS:
+        for d in QUICK_EXTRA_DOCS:
+            steps.append({'kind': 'render', 'renderer': r, 'opts': o, 'doc': d})
+    for r, o in QUICK_CONFIGS[:1]:
+        for d in QUICK_EXTRA_DOCS:
+            steps.append({'kind': 'render', 'renderer': r, 'opts': o, 'doc': d})
+    steps.append({'kind': 'toc-after-abort', 'fault': 'span-find', 'pos': 5, 'place': 'top'})
+    steps.append({'kind': 'toc-after-abort', 'fault': 'block-start', 'pos': 0, 'place': 'quote-later'})
+    steps.append({'kind': 'subclass', 'doc': 'html'})
+    steps.append({'kind': 'subclass', 'doc': 'atx'})
+    for how in REUSE_KINDS:
+        steps.append({'kind': 'reuse-after-render-error', 'how': how, 'doc': 'tight-list' if how != 'latex-verb' else 'code'})
+    steps.append({'kind': 'nested-exit', 'outer': ['Ast', {}], 'inner': ['Html', {}]})
+    steps.append({'kind': 'nested-exit', 'outer': ['Html', {}], 'inner': ['LaTeX', {}]})
+    return steps
+
 
 def quick_alphabet():
     steps = []
@@ -531,8 +675,6 @@ def quick_alphabet():
     steps.append({'kind': 'fault', 'fault': 'span-find', 'pos': 4, 'place': 'top', 'renderer': 'Ast', 'opts': {}})
     steps.append({'kind': 'fault', 'fault': 'block-start', 'pos': 0, 'place': 'quote-later', 'renderer': 'Html', 'opts': {'process_html_tokens': False}})
     steps.append({'kind': 'fault', 'fault': 'span-find', 'pos': 5, 'place': 'quote', 'renderer': 'Html', 'opts': {}, 'caught': True, 'then': 'code'})
-    steps.append({'kind': 'toc-after-abort', 'fault': 'span-find', 'pos': 5, 'place': 'top'})
-    steps.append({'kind': 'toc-after-abort', 'fault': 'block-start', 'pos': 0, 'place': 'quote-later'})
     return steps
 
 
@@ -545,6 +687,15 @@ def full_alphabet():
         steps.append({'kind': 'bare', 'doc': d})
     steps.append({'kind': 'scheme'})
     steps.append({'kind': 'deep'})
+    for d in SUBCLASS_DOCS:
+        steps.append({'kind': 'subclass', 'doc': d})
+    for how in REUSE_KINDS:
+        for d in ('tight-list', 'code', 'latex-packages', 'setext'):
+            steps.append({'kind': 'reuse-after-render-error', 'how': how, 'doc': d})
+    for ro, oo in RENDER_CONFIGS:
+        for ri, oi in RENDER_CONFIGS:
+            if ro != 'Markdown' or ri != 'Markdown':       # (two MarkdownRenderers cannot be constructed one inside the other)
+                steps.append({'kind': 'nested-exit', 'outer': [ro, oo], 'inner': [ri, oi]})
     for f in FAULT_KINDS:
         for place in TRIGGERS:
             steps.append({'kind': 'toc-after-abort', 'fault': f, 'pos': 5 if f.startswith('span') else 0, 'place': place})
@@ -586,6 +737,20 @@ def run(ctx):
                 break
             run_history(ctx, list(hist), 'exhaustive-quick-alphabet-%d' % n)
     ctx.note('all histories of length <= 3 over the %d-step quick alphabet enumerated (each step is also a probe)' % len(qa))
+    # (2b) all ordered pairs over the quick alphabet extended by the extra steps (other renderers, sessions with subclassed
+    # tokens, one instance reused after a failed rendering, nested contexts, .toc after an aborted parse)
+    qx = qa + quick_extra_alphabet()
+    for a in qx:
+        for b in qx:
+            if a in qa and b in qa:
+                continue
+            idx += 1
+            if idx % ctx.nshards != ctx.shard:
+                continue
+            if ctx.out_of_time():
+                break
+            run_history(ctx, [a, b], 'exhaustive-quick-extra-2')
+    ctx.note('all ordered pairs involving one of the %d extra quick steps enumerated' % (len(qx) - len(qa)))
     # (3) every fault of the full alphabet followed by every probe of the quick alphabet (fault x consumer matrix)
     faults = [s for s in fa if s['kind'] in ('fault', 'deep')]
     qprobes = [s for s in qa if s['kind'] in ('render', 'bare')]
@@ -642,6 +807,9 @@ def finalize(m, tier):
     fired = sum(v for k, v in m.c('faults').items() if 'fired=False' not in k)
     if fired < 100:
         inconclusive.append('only %d injected faults actually fired' % fired)
+    for how in REUSE_KINDS:
+        if not m.c('faults').get('reuse-after-render-error:%s fired=True' % how, 0):
+            inconclusive.append('the failing rendering of reuse-after-render-error(%s) never raised' % how)
     return {
         'distinct_nontrivial': m.n('nontrivial'),
         'rule': 'a history is a sequence of steps {render d with renderer R in its context; bare Document(d); Scheme session; parse that '
@@ -649,7 +817,10 @@ def finalize(m, tier):
                 'top level / in a quote / in a list item, inside a renderer context (exception propagating or caught) or bare; over-deep '
                 'parse}. Every render/parse step is a probe compared with the value a fresh interpreter gives; token lists are checked '
                 'after every context exit. Enumerated: every single step, all histories of length <= 3 over the quick alphabet, every fault '
-                'x every probe; plus random histories (length 3-6 and 200). distinct_nontrivial = distinct histories with at least 2 steps',
+                'x every probe; all pairs involving the extra steps (TocRenderer incl. its .toc - also after an aborted parse inside the session -, '
+                'PygmentsRenderer with two styles, a renderer whose extra tokens subclass Heading / CodeFence / HtmlBlock, one renderer instance '
+                'reused after a rendering that raised, a context opened and closed inside another one); plus random histories (length 3-6 and '
+                '200). distinct_nontrivial = distinct histories with at least 2 steps',
         'inconclusive': inconclusive,
         'extra': {'checks': checks, 'faults': m.c('faults'), 'distinct_fault_placements_fired': m.n('fault-placements'),
                   'distinct_dirty_state_signatures_before_a_probe': m.n('dirty-signatures'),
